@@ -1,21 +1,34 @@
 import Upa.Proofs.BoundsAgree3Ip4
 import Upa.Proofs.BoundsAgree3Ip6
+import Upa.Proofs.BoundsAgree3Dec
+import Upa.Proofs.BoundsAgree3Host
+import Upa.Proofs.BoundsAgree3Utf
+import Upa.Proofs.BoundsAgree3Unc
+import Upa.Proofs.BoundsAgree3Form
+import Upa.Proofs.BoundsAgree3Cmp
+import Upa.Props.C01
 /-
   C04h — AGREEMENT theorems for the bounds-instrumented scanners of `Upa/Impl/Bounds.lean` /
   `Upa/Impl/BoundsMisc.lean` that did not have one yet (in-bounds / pointers / termination:
   `Upa/Props/C04b.lean`, `Upa/Props/C04e.lean`): the instrumented model (array + index, every read checked,
   local arrays with checked indices) returns `.ok` of what the list model of `Upa/Impl/*.lean` computes on
   `slice a first last`.
-  Lemmas: `Upa/Proofs/BoundsAgree3Ip4.lean`, `Upa/Proofs/BoundsAgree3Ip6.lean`.
+  Where the C++ decodes lazily while it scans raw code units, the list model runs on `Impl.decode e (slice …)`.
+  Lemmas: `Upa/Proofs/BoundsAgree3Ip4.lean`, `Upa/Proofs/BoundsAgree3Ip6.lean`, `Upa/Proofs/BoundsAgree3Dec.lean`,
+  `Upa/Proofs/BoundsAgree3Host.lean`, `Upa/Proofs/BoundsAgree3Utf.lean`, `Upa/Proofs/BoundsAgree3Unc.lean`,
+  `Upa/Proofs/BoundsAgree3Form.lean`, `Upa/Proofs/BoundsAgree3Cmp.lean`.
 -/
 namespace Upa.Props
 open Upa Upa.Impl.B
 
+theorem unitsOk_uOk_h {e : Enc} {l : List Nat} (h : UnitsOk e l) : Upa.Proofs.C10b.UOk e l := by
+  cases e <;> exact h
+
 /-! ### url_ip.h ipv4_parse -/
 
 /-- `ipv4_parse(first, last, ipv4)` (the pointer array `part[6]`, the numbers `number[4]`) = `Impl.ipv4Parse`
-    (list of lists), for every input — any code unit width: the scan loop admits only the ASCII IPv4
-    characters, so `ipv4_parse_number` (which casts to `unsigned char`) only sees bytes -/
+    (list of lists), for every input — any code unit width: the scan loop lets only the ASCII IPv4
+    characters through, so `ipv4_parse_number` (which casts to `unsigned char`) only sees bytes -/
 theorem C04_agrees_ipv4_parse : ∀ (a : Array Nat) (first last : Nat), first ≤ last → last ≤ a.size →
     ipv4Parse a first last = .ok (Impl.ipv4Parse (slice a first last)) :=
   ipv4Parse_agrees
@@ -40,6 +53,218 @@ example : ipv6Parse (ofStr "::") 0 2 = .ok (some [0, 0, 0, 0, 0, 0, 0, 0]) := by
 example : ipv6Parse (ofStr "1:2:3:4:5:6:7:8:9") 0 17 = .ok none := by decide
 example : ipv6Parse (ofStr "1::2::3") 0 7 = .ok none := by decide
 
+/-! ### url_host.h parse_ipv4, parse_ipv6 -/
+
+/-- `host_parser::parse_ipv4(first, last, dest)` = `Impl.hostParseIpv4` (parse, then serialize) -/
+theorem C04_agrees_host_parse_ipv4 : ∀ (a : Array Nat) (first last : Nat), first ≤ last → last ≤ a.size →
+    parseIpv4M a first last = .ok (Impl.hostParseIpv4 (slice a first last)) :=
+  parseIpv4M_agrees
+example : parseIpv4M (ofStr "0x7f.1") 0 6 = .ok (some { kind := .ipv4, text := asciiStr "127.0.0.1" }) := by decide
+
+/-- `host_parser::parse_ipv6(first, last, dest)` = `Impl.hostParseIpv6`: the eight cells `ipv6_parse` filled
+    are `uint16_t` values (`Upa.Proofs.V6.parse_good`), so `ipv6_serialize` prints them unchanged -/
+theorem C04_agrees_host_parse_ipv6 : ∀ (a : Array Nat) (first last : Nat), first ≤ last → last ≤ a.size →
+    parseIpv6M a first last = .ok (Impl.hostParseIpv6 (slice a first last)) :=
+  parseIpv6M_agrees
+example : parseIpv6M (ofStr "1:0:0:2::FFFF") 0 13 = .ok (some { kind := .ipv6, text := asciiStr "[1:0:0:2::ffff]" }) := by
+  decide
+
+/-! ### url_percent_encode.h decode_hex_to_byte, the `%XX` run;  src/url_utf.cpp convert_utf8_to_utf16 -/
+
+/-- `detail::decode_hex_to_byte(first, last, uc)` in closed form: succeeds iff two units are left and both are
+    hex digits (there is no list model of its own: `Impl.percentDecodeAux` matches `h1 :: h2 :: _` and tests
+    `isHex h1 && isHex h2`) -/
+theorem C04_agrees_decode_hex_to_byte : ∀ (a : Array Nat) (first last : Nat), first ≤ last → last ≤ a.size →
+    decodeHexToByte a first last = .ok (
+      if last - first ≥ 2 ∧ isHex a[first]! = true ∧ isHex a[first + 1]! = true then
+        some (hexVal a[first]! * 16 + hexVal a[first + 1]!, first + 2)
+      else none) :=
+  decodeHexToByte_eq
+example : decodeHexToByte (ofStr "%e9") 1 3 = .ok (some (0xE9, 3)) := by decide
+example : decodeHexToByte (ofStr "%e") 1 2 = .ok none := by decide
+
+/-- the inner loop `while (it != last && *it == '%') { ++it; if (!decode_hex_to_byte(…)) uc8 = '%'; … }` of
+    append_percent_decoded / parse_host: it appends a prefix of the Standard's string percent-decode of the
+    (decoded) rest, and stops at the end or in front of a unit that is not `%` -/
+theorem C04_agrees_pct_run : ∀ (e : Enc) (a : Array Nat) (first last it : Nat) (buff : List Nat) (fuel : Nat),
+    first ≤ it → it ≤ last → last ≤ a.size → UnitsOk e (slice a it last) → last - it < fuel →
+    ∃ it' run, pctRun a first last fuel (it, buff) = .ok (it', buff ++ run) ∧ it ≤ it' ∧ it' ≤ last ∧
+      (it' = last ∨ a[it']! ≠ 0x25) ∧
+      Spec.stringPercentDecode (Impl.decode e (slice a it last)) =
+        run ++ Spec.stringPercentDecode (Impl.decode e (slice a it' last)) := by
+  intro e a first last it buff fuel h1 h2 hl hu hf
+  obtain ⟨⟨it', b⟩, hv, r1, r2, r3, run, rb, _, rG⟩ :=
+    pctRun_agrees e a first last hl it buff h1 h2 (unitsOk_uOk_h hu) fuel hf
+  simp only at rb
+  exact ⟨it', run, by rw [hv, rb], r1, r2, r3, rG⟩
+example : pctRun (ofStr "%C3%A9%zz") 0 9 10 (0, []) = .ok (7, [0xC3, 0xA9, 0x25]) := by decide
+
+/-- `url_utf::convert_utf8_to_utf16(first, last, output)` on bytes = UTF-8 decode with replacement, UTF-16 encode -/
+theorem C04_agrees_convert_utf8_to_utf16 : ∀ (a : Array Nat) (first last : Nat), first ≤ last → last ≤ a.size →
+    (∀ i, first ≤ i → i < last → a[i]! < 256) →
+    ∃ ok, convertUtf8ToUtf16M a first last = .ok (ok, Impl.encodeUtf16 (Impl.decode .u8 (slice a first last))) := by
+  intro a first last h hl hb
+  obtain ⟨⟨ok, out⟩, hv, hr⟩ := convertUtf8ToUtf16M_agrees a first last h hl hb
+  simp only at hr
+  exact ⟨ok, by rw [hv, hr]⟩
+example : ∀ i, i < 5 → 0 ≤ i → (#[0xF0, 0x9F, 0x98, 0x80, 0xFF] : Array Nat)[i]! < 256 := by decide
+example : Impl.encodeUtf16 (Impl.decode .u8 [0xF0, 0x9F, 0x98, 0x80, 0xFF]) = [0xD83D, 0xDE00, 0xFFFD] := by decide
+
+/-! ### url.h parse_path lambda escaped_dot -/
+
+theorem C04_agrees_escaped_dot : ∀ (a : Array Nat) (first last p : Nat), last ≤ a.size → first ≤ p → p + 3 ≤ last →
+    escapedDot a first last p = .ok (Impl.escapedDot [a[p]!, a[p + 1]!, a[p + 2]!]) :=
+  escapedDot_agrees
+example : escapedDot (ofStr ".%2E") 0 4 1 = .ok true := by decide
+
+/-! ### url_host.h parse_host -/
+
+/-- the two loops that fill `buff_uc` (copy the ASCII-domain prefix `[first, ptr)`, percent-decode `[ptr, last)`
+    to UTF-16, non-ASCII units through `read_utf_char`, `%XX` runs through convert_utf8_to_utf16) = the
+    `buffUc` of `Impl.parseHost` on the decoded input: percent-decode, UTF-8 decode, UTF-16 encode.
+    Hypothesis on the prefix: what `find_if_not(is_ascii_domain_char)` guarantees (ASCII, no `%`). -/
+theorem C04_agrees_host_decode : ∀ (e : Enc) (a : Array Nat) (first last ptr : Nat), first ≤ ptr → ptr ≤ last →
+    last ≤ a.size → UnitsOk e (slice a first last) → (∀ i, first ≤ i → i < ptr → a[i]! < 0x80 ∧ a[i]! ≠ 0x25) →
+    hostDecodeM e a first last ptr =
+      .ok (Impl.encodeUtf16 (Impl.decode .u8 (Impl.percentDecode (Impl.decode e (slice a first last))))) := by
+  intro e a first last ptr h1 h2 hl hu hpre
+  rw [hostDecodeM_agrees e a first last ptr h1 h2 hl (unitsOk_uOk_h hu) hpre,
+    buffUc_eq _ (Upa.Proofs.C10b.decode_scalars e _ (unitsOk_uOk_h hu))]
+  rfl
+example : hostDecodeM .u8 #[0x61, 0x25, 0x43, 0x33, 0x25, 0x41, 0x39, 0xE2, 0x82] 0 9 1 = .ok [0x61, 0xE9, 0xFFFD] := by
+  decide
+-- the hypotheses hold on this input, and the theorem then evaluates the list model ("a%C3%A9" + truncated E2 82)
+example : Impl.encodeUtf16 (Impl.decode .u8 (Impl.percentDecode
+    (Impl.decode .u8 (slice #[0x61, 0x25, 0x43, 0x33, 0x25, 0x41, 0x39, 0xE2, 0x82] 0 9)))) = [0x61, 0xE9, 0xFFFD] := by
+  have h := C04_agrees_host_decode .u8 #[0x61, 0x25, 0x43, 0x33, 0x25, 0x41, 0x39, 0xE2, 0x82] 0 9 1 (by decide) (by decide)
+    (by decide) (by show ∀ x ∈ slice #[0x61, 0x25, 0x43, 0x33, 0x25, 0x41, 0x39, 0xE2, 0x82] 0 9, x < 256; decide)
+    (by intro i _ hi; have : i = 0 := by omega
+        subst this; decide)
+  rw [show hostDecodeM .u8 #[0x61, 0x25, 0x43, 0x33, 0x25, 0x41, 0x39, 0xE2, 0x82] 0 9 1 = .ok [0x61, 0xE9, 0xFFFD] by decide] at h
+  exact (R.ok.inj h).symm
+
+/-- `host_parser::parse_host(first, last, is_opaque, dest)` = `Impl.parseHost` on the decoded input — EVERY
+    input, both values of `is_opaque`, every character width, every `idna`: the bracketed IPv6 literal
+    (`ipv6_parse` on raw units: it accepts ASCII only, `Upa.Impl.B.ipv6Parse_ascii`), the opaque host, the
+    ASCII fast path (xn-- test, ends-in-a-number, IPv4, lower-casing), the forbidden-code-point pre-check,
+    and the IDNA path (`hostDecodeM`, forbidden domain code points, ends-in-a-number, IPv4 on the IDNA output).
+    The only hypothesis is the type invariant of the units (`char` < 2^8, `char16_t` < 2^16). -/
+theorem C04_agrees_parse_host : ∀ (idna : Idna) (e : Enc) (a : Array Nat) (first last : Nat) (isOpaque : Bool),
+    first ≤ last → last ≤ a.size → UnitsOk e (slice a first last) →
+    parseHostM idna e a first last isOpaque =
+      .ok (Impl.parseHost idna (Impl.decode e (slice a first last)) isOpaque) :=
+  fun i e a f l o h hl hu => parseHostM_agrees i e a f l o h hl (unitsOk_uOk_h hu)
+example : UnitsOk .u8 (slice (ofStr "1.2.3.%34") 0 9) := by
+  show ∀ x ∈ slice (ofStr "1.2.3.%34") 0 9, x < 256
+  decide
+example : parseHostM some .u8 (ofStr "1.2.3.%34") 0 9 false = .ok (some { kind := .ipv4, text := asciiStr "1.2.3.4" }) := by
+  decide
+example : Impl.parseHost some (Impl.decode .u8 (slice (ofStr "1.2.3.%34") 0 9)) false =
+    some { kind := .ipv4, text := asciiStr "1.2.3.4" } := by
+  have h := C04_agrees_parse_host some .u8 (ofStr "1.2.3.%34") 0 9 false (by decide) (by decide)
+    (by show ∀ x ∈ slice (ofStr "1.2.3.%34") 0 9, x < 256; decide)
+  rw [show parseHostM some .u8 (ofStr "1.2.3.%34") 0 9 false = .ok (some { kind := .ipv4, text := asciiStr "1.2.3.4" }) by
+    decide] at h
+  exact (R.ok.inj h).symm
+example : parseHostM some .u16 (ofStr "[::1.2.3.4]") 0 11 false = .ok (some { kind := .ipv6, text := asciiStr "[::102:304]" }) := by
+  decide
+example : parseHostM some .u8 #[0x61, 0xC3, 0xA9, 0x25, 0x34, 0x31] 0 6 false =
+    .ok (some { kind := .domain, text := [0x61, 0xE9, 0x41] }) := by decide
+example : parseHostM some .u8 (ofStr "a<b") 0 3 false = .ok none := by decide
+
+/-! ### src/url_utf.cpp check_fix_utf8, compare_by_code_units -/
+
+/-- `url_utf::check_fix_utf8(str)` (two copy loops over `ptr` / `bgn` / `it`, `buff.append(p, q)`) =
+    `Impl.checkFixUtf8` = UTF-8 decode with replacement, re-encode — on a byte buffer (`std::string`).
+    Key lemma `Upa.Impl.B.readU8A_ok_encode`: a successful read_code_point consumed exactly the UTF-8
+    encoding of the code point it returns, so copying the input range = re-encoding. -/
+theorem C04_agrees_check_fix_utf8 : ∀ (a : Array Nat) (first last : Nat), first ≤ last → last ≤ a.size →
+    (∀ i, first ≤ i → i < last → a[i]! < 256) →
+    checkFixUtf8 a first last = .ok (Impl.checkFixUtf8 (slice a first last)) :=
+  checkFixUtf8_agrees
+example : ∀ i, i < 7 → 0 ≤ i → (#[0x61, 0xC3, 0xA9, 0xE2, 0x82, 0x62, 0xFF] : Array Nat)[i]! < 256 := by decide
+example : checkFixUtf8 #[0x61, 0xC3, 0xA9, 0xE2, 0x82, 0x62, 0xFF] 0 7 =
+    .ok [0x61, 0xC3, 0xA9, 0xEF, 0xBF, 0xBD, 0x62, 0xEF, 0xBF, 0xBD] := by decide
+example : Impl.checkFixUtf8 [0x61, 0xC3, 0xA9, 0xE2, 0x82, 0x62, 0xFF] =
+    [0x61, 0xC3, 0xA9, 0xEF, 0xBF, 0xBD, 0x62, 0xEF, 0xBF, 0xBD] := by decide
+
+/-- `url_utf::compare_by_code_units(first1, last1, first2, last2)` = `Impl.compareByCodeUnits` on the two byte
+    slices (the `assert(u16_is_lead(cu1))` holds, `Upa/Props/C04b.lean`) -/
+theorem C04_agrees_compare_by_code_units : ∀ (a1 : Array Nat) (first1 last1 : Nat) (a2 : Array Nat) (first2 last2 : Nat),
+    first1 ≤ last1 → last1 ≤ a1.size → first2 ≤ last2 → last2 ≤ a2.size →
+    (∀ i, first1 ≤ i → i < last1 → a1[i]! < 256) → (∀ i, first2 ≤ i → i < last2 → a2[i]! < 256) →
+    compareByCodeUnits a1 first1 last1 a2 first2 last2 =
+      .ok (Impl.compareByCodeUnits (slice a1 first1 last1) (slice a2 first2 last2)) :=
+  compareByCodeUnits_agrees
+-- U+FF5E (EF BD 9E) sorts AFTER U+1F600 (F0 9F 98 80) by UTF-16 code units (FF5E > D83D), before it by bytes
+example : compareByCodeUnits #[0xEF, 0xBD, 0x9E] 0 3 #[0xF0, 0x9F, 0x98, 0x80] 0 4 = .ok 10017 := by decide
+example : Impl.compareByCodeUnits [0xEF, 0xBD, 0x9E] [0xF0, 0x9F, 0x98, 0x80] = 10017 := by decide
+
+/-! ### url_percent_encode.h append_percent_decoded -/
+
+/-- `detail::append_percent_decoded(str, output)` (any `CharT`: lazy `read_utf_char`, `decode_hex_to_byte`, the
+    `%XX` run buffered in `buff_utf8` and repaired by check_fix_utf8) = `Impl.percentDecode` on the decoded
+    input — every character width, ill-formed input included -/
+theorem C04_agrees_append_percent_decoded : ∀ (e : Enc) (a : Array Nat) (first last : Nat), first ≤ last →
+    last ≤ a.size → UnitsOk e (slice a first last) →
+    appendPercentDecoded e a first last = .ok (Impl.percentDecode (Impl.decode e (slice a first last))) :=
+  fun e a f l h hl hu => appendPercentDecoded_agrees e a f l h hl (unitsOk_uOk_h hu)
+example : appendPercentDecoded .u16 #[0x61, 0x25, 0x45, 0x32, 0x25, 0x38, 0x32, 0x25, 0x7A, 0xE9, 0xD800] 0 11 =
+    .ok [0x61, 0xEF, 0xBF, 0xBD, 0x25, 0x7A, 0xC3, 0xA9, 0xEF, 0xBF, 0xBD] := by decide
+example : Impl.percentDecode (Impl.decode .u16 (slice #[0x61, 0x25, 0x45, 0x32, 0x25, 0x38, 0x32, 0x25, 0x7A, 0xE9, 0xD800] 0 11)) =
+    [0x61, 0xEF, 0xBF, 0xBD, 0x25, 0x7A, 0xC3, 0xA9, 0xEF, 0xBF, 0xBD] := by
+  have h := C04_agrees_append_percent_decoded .u16 #[0x61, 0x25, 0x45, 0x32, 0x25, 0x38, 0x32, 0x25, 0x7A, 0xE9, 0xD800] 0 11
+    (by decide) (by decide)
+    (by show ∀ x ∈ slice #[0x61, 0x25, 0x45, 0x32, 0x25, 0x38, 0x32, 0x25, 0x7A, 0xE9, 0xD800] 0 11, x < 65536; decide)
+  rw [show appendPercentDecoded .u16 #[0x61, 0x25, 0x45, 0x32, 0x25, 0x38, 0x32, 0x25, 0x7A, 0xE9, 0xD800] 0 11 =
+    .ok [0x61, 0xEF, 0xBF, 0xBD, 0x25, 0x7A, 0xC3, 0xA9, 0xEF, 0xBF, 0xBD] by decide] at h
+  exact (R.ok.inj h).symm
+
+/-! ### url.h is_unc_path -/
+
+/-- `detail::is_unc_path(first, last)`: the `end_of_share_name` pointer it returns is the suffix the list model
+    returns (`none` = not a UNC path) -/
+theorem C04_agrees_is_unc_path : ∀ (a : Array Nat) (first last : Nat), first ≤ last → last ≤ a.size →
+    ∃ o, isUncPath a first last = .ok o ∧
+      o.map (fun p => slice a p last) = Impl.isUncPath (slice a first last) := by
+  intro a first last h hl
+  obtain ⟨o, ho, hp⟩ := isUncPath_agrees a first last h hl
+  exact ⟨o, ho, hp⟩
+example : isUncPath (ofStr "host\\share\\dir") 0 14 = .ok (some 10) := by decide
+example : Impl.isUncPath (asciiStr "host\\share\\dir") = some (asciiStr "\\dir") := by decide
+example : isUncPath (ofStr "host\\..\\dir") 0 11 = .ok none := by decide
+
+/-! ### url_search_params.h do_parse -/
+
+/-- `url_search_params::do_parse(rem_qmark, query)` on the bytes of `str_query` (pointers `it`, `start`, `pval`,
+    the `%XX` look-ahead `std::distance(it, e) > 2`) = `Impl.formParse` -/
+theorem C04_agrees_do_parse : ∀ (remQmark : Bool) (a : Array Nat) (first last : Nat), first ≤ last → last ≤ a.size →
+    (∀ i, first ≤ i → i < last → a[i]! < 256) →
+    doParse remQmark a first last = .ok (Impl.formParse remQmark (slice a first last)) :=
+  doParse_agrees
+example : doParse true (ofStr "?a=b%3D+c&&d&=%e") 0 16 =
+    .ok [(asciiStr "a", asciiStr "b= c"), (asciiStr "d", []), ([], asciiStr "%e")] := by decide
+example : Impl.formParse true (slice (ofStr "?a=b%3D+c&&d&=%e") 0 16) =
+    [(asciiStr "a", asciiStr "b= c"), (asciiStr "d", []), ([], asciiStr "%e")] := by
+  have hb : ∀ i, i < 16 → (ofStr "?a=b%3D+c&&d&=%e")[i]! < 256 := by decide
+  have h := C04_agrees_do_parse true (ofStr "?a=b%3D+c&&d&=%e") 0 16 (by decide) (by decide) (fun i _ hi => hb i hi)
+  rw [show doParse true (ofStr "?a=b%3D+c&&d&=%e") 0 16 =
+    .ok [(asciiStr "a", asciiStr "b= c"), (asciiStr "d", []), ([], asciiStr "%e")] by decide] at h
+  exact (R.ok.inj h).symm
+
 #print axioms C04_agrees_ipv4_parse
 #print axioms C04_agrees_ipv6_parse
+#print axioms C04_agrees_host_parse_ipv4
+#print axioms C04_agrees_host_parse_ipv6
+#print axioms C04_agrees_decode_hex_to_byte
+#print axioms C04_agrees_pct_run
+#print axioms C04_agrees_convert_utf8_to_utf16
+#print axioms C04_agrees_escaped_dot
+#print axioms C04_agrees_host_decode
+#print axioms C04_agrees_parse_host
+#print axioms C04_agrees_check_fix_utf8
+#print axioms C04_agrees_compare_by_code_units
+#print axioms C04_agrees_append_percent_decoded
+#print axioms C04_agrees_is_unc_path
+#print axioms C04_agrees_do_parse
 end Upa.Props
